@@ -15,7 +15,10 @@ Obs ==
    lab   |-> [i \in U |-> ClassOf(part, eqs, i)],
    ncls  |-> NumClasses(part, eqs),
    slots |-> [ti \in DOMAIN TermPool |-> SetToSortSeq(NonRed(part, TermPool[ti]), <)],
-   syms  |-> [ti \in DOMAIN TermPool |-> Cardinality(Syms(part, TermPool[ti]))]]
+   syms  |-> [ti \in DOMAIN TermPool |-> Cardinality(Syms(part, TermPool[ti]))],
+   cost  |-> [c \in 1..Len(CostNames) |->
+               LET mc == MinCost(CostNames[c], part) IN
+               [i \in U |-> IF Represented(part, eqs, i) THEN mc[part[i]] ELSE 0]]]
 
 ASSUME PrintT("UNIVERSE " \o ToJson([n |-> n, N |-> N, us |-> us]))
 
